@@ -110,23 +110,23 @@ PENDING_REASON = "monitor not built yet in this revision of /verif (work in prog
 # Workloads added after the first version of each check (red-team rounds 1-5, see DESIGN.md 10.5); appended to the level text.
 ADDED = {
  "C01": "Added later: big cells with remaining symmetry, all circulants n = 10..14 (18) with one edge toggled, perturbed family members, every multiset of 4..6 short cycles and seeded multisets of other small components (and complements) under 300..1000 relabellings, classes n = 9, 10 in thorough, representation variants (edge bytes 1..255, spare capacity), earlier results re-read after later calls. A budget overrun on inputs of >= 13 vertices is counted, not judged.",
- "C02": "Added later: representation variants, reuse histories crossing size changes, earlier results re-read after later calls.",
+ "C02": "Added later: representation variants, reuse histories crossing size changes, earlier results re-read after later calls. The three results are appended to by the caller and must not disturb each other.",
  "C03": "Added later: restricted searches at n = 10..13 against a harness-owned restricted class generator (triangle-free n = 12 in thorough), degenerate hereditary classes (empty class, order <= 0, order <= 3) and cographs, predicates placed as preprune / prune / both.",
- "C04": "Added later: periodic checkpoints on one iterator in three buffer modes, failed Save attempts before a good one, save positions in orders 10..14 (18) judged on a prefix of the output, the checkpoint handed to Load through seven kinds of io.Reader.",
+ "C04": "Added later: periodic checkpoints on one iterator in three buffer modes, failed Save attempts before a good one, save positions in orders 10..14 (18) judged on a prefix of the output, the checkpoint handed to Load through seven kinds of io.Reader. Added in round 8: several checkpoints in one stream, loaded back in order from byte readers.",
  "C05": "Added later: histories on graphs crossing 64 / 128 vertices, start graphs in representation variants, caller-owned argument and result slices (pooled, scribbled on), InducedSubgraph lists of every relative size on hub graphs.",
- "C06": "Added later: transformation chains, edit chains under live views, independence of multiple results, free-form decoder inputs from independent writers, every transformation on representation variants and on values the library built from such inputs.",
+ "C06": "Added later: transformation chains, edit chains under live views, independence of multiple results, free-form decoder inputs from independent writers, every transformation on representation variants and on values the library built from such inputs. Added in round 8: the double complement (ComplementDense of a Complement view) as a value of its own, source and result edited in turn.",
  "C07": "Added later: long Pruefer codes, high-degree graphs, representation variants as encoder inputs, results of all nine functions held across later calls, arguments as sub-slices of caller-owned buffers with guarded surroundings.",
  "C08": "Added later: grammar-aware numeric-limit inputs (n = 0 with 64-bit vertex numbers, walks of the current vertex across n, 2^k, 2^8 .. 2^64, long runs), results edited by the caller before the same string is decoded again, every small result re-encoded in the other format and read back.",
- "C09": "Added later: structured graphs with closed-form values up to 257 vertices (K_{256,257}), argument graphs re-read after the call.",
- "C10": "Added later: structured graphs with closed forms at n = 31..257, graphs of 300..4096 vertices with independent oracles, call sessions in one process (same function twice, large after small, representation changes).",
+ "C09": "Added later: structured graphs with closed-form values up to 257 vertices (K_{256,257}), argument graphs re-read after the call. Received cliques are kept while the producer goes on, then appended to by the receiver.",
+ "C10": "Added later: structured graphs with closed forms at n = 31..257, graphs of 300..4096 vertices with independent oracles, call sessions in one process (same function twice, large after small, representation changes). Added in round 8: the caller appends to every list of a result; calls nested in one another through a caller-implemented Graph.",
  "C11": "Added later: live views (induced, complement, nested) and representation variants as inputs, repeated calls, view sessions with edits of the host between calls, a Graph implemented by the caller (handing out copies, as the library types do).",
  "C12": "Added later: caller-owned word slices, Builder life cycles (one Builder for several Dawgs, Initialise after Finish / abandoned build / rejected Add, Builder values moved by assignment) with every earlier Dawg re-checked.",
  "C13": "Added later: user-defined searchers and nested searches, words of up to 6228 (65537) bytes and result totals beyond 65536 bytes, results of earlier searches held and overwritten.",
- "C14": "Added later: receivers that already hold an automaton, caller-owned bytes, more than 65536 nodes, the last integer of the stream at every width, Dawgs of reused Builders. The byte layout itself is recorded, not judged.",
+ "C14": "Added later: receivers that already hold an automaton, caller-owned bytes, more than 65536 nodes, the last integer of the stream at every width, Dawgs of reused Builders. The byte layout itself is recorded, not judged. A value copy of the Dawg kept across a reload of the variable.",
  "C15": "Added later: large n with small output, caller-owned argument slices, one argument slice for several iterators (sequential, built-first, interleaved), prefix judgement of families with more than 2^63 / 2^64 objects, look-ahead predicates that append a candidate to their argument. Parameters outside the documented domain are recorded, not judged.",
- "C16": "Added later: long-loop Unrank cases, Rank of dense sets of up to 25000 elements around MaxInt / 2^64 / 2^65, a ledger of held results re-read after every later call and ten call-order patterns.",
+ "C16": "Added later: long-loop Unrank cases, Rank of dense sets of up to 25000 elements around MaxInt / 2^64 / 2^65, a ledger of held results re-read after every later call and ten call-order patterns. The caller extends every value of a colex walk with append.",
  "C17": "Added later: value semantics of SortedInts (copies and sub-slices sharing a backing array), every representation of the empty set in every argument position, library results fed back as arguments. In-place Remove / Union inside their own window are by design and counted, not judged.",
- "C18": "All operation sequences up to a length bound (self-unions and redundant unions included), binomial-tree union orders and seeded long histories; after every operation the whole partition, Sets, SmallestRep and Roots are compared with the model. Added later: views on the live value, every labelling of the 8-element binomial tree, several Sets side by side in one array (prefix views).",
+ "C18": "All operation sequences up to a length bound (self-unions and redundant unions included), binomial-tree union orders and seeded long histories; after every operation the whole partition, Sets, SmallestRep and Roots are compared with the model. Added later: views on the live value, every labelling of the 8-element binomial tree, several Sets side by side in one array (prefix views). The lists of Sets are appended to and overwritten by the caller, Sets is asked again.",
  "C19": "Added later: every unit in a fresh process with the concurrent phase first, wide alphabets, own graphs, shared large graphs (views of 66..130 vertices), clique consumers that own the slices they receive, shared read-only argument slices.",
  "C20": "Added later: 256..1025 rows with sampled fault positions, writer types (bufio, StringWriter, ReaderFrom, MultiWriter), call sequences after a failed call, 33 fault modes (count x error x bytes x duration), nested overlapping calls, operating-system files and pipes that refuse the write themselves.",
 }
